@@ -172,6 +172,19 @@ Proof.
   intros H. apply Permutation_length in H. vm_compute in H. discriminate.
 Qed.
 
+(** "the new root has at least three neighbours unless both root children are tips" is false
+    when the root child that is kept as root is a single-child node: [no_single] is needed
+    (the exact degree is given by [unroot_degree]). *)
+Lemma unroot_degree_refuted :
+  exists t, wf t = true /\ rooted t = true /\ root_has_inner_child t = true /\
+            Permutation (leaves (unroot t)) (leaves t) /\ degree (unroot t) = 2.
+Proof.
+  exists (UNode "r" [] [Some (E 1%Q, tip "a");
+                        Some (E 1%Q, UNode "x" [] [None; Some (E 1%Q, UNode "y" [] [None; Some (E 1%Q, tip "b"); Some (E 1%Q, tip "c")])])]).
+  repeat split; try (vm_compute; reflexivity).
+  vm_compute. perm.
+Qed.
+
 (** ** (c) reorderings *)
 Theorem tperm_all t t' :
   tperm t t' ->
